@@ -121,6 +121,14 @@ def adv_check(pid, tier, replay, plan):
         conf = {"checked": nconf, "deviations": dev[:50], "n_deviations": len(dev), "runs": cstats}
         for d in dev[:10]:
             print("MODEL-DEVIATION property=%s scenario=%s (the trace is not a behaviour of Advertiser.tla; not a verdict)" % (pid, d))
+        # where the model and the execution part ways: longest explained prefix of the first deviating scenarios
+        detail = []
+        for evs, consts in adv.DEVIATION_DETAIL[:3]:
+            k, nxt = adv.longest_explained_prefix(evs, consts)
+            detail.append({"scenario": evs[0]["id"], "explained_lines": k - 1, "of": len(evs), "first_unexplained": nxt})
+            print("MODEL-DEVIATION-DETAIL property=%s scenario=%s explained %d of %d lines; first unexplained: %s"
+                  % (pid, evs[0]["id"], k - 1, len(evs), json.dumps(nxt)))
+        conf["detail"] = detail
 
     mine, others = [], []
     for v in viols:
